@@ -8,22 +8,76 @@ set_option linter.unusedSimpArgs false
 namespace MongoModel.Proofs.C04
 open MongoModel MongoModel.Expr MongoModel.Spec
 
-/-- a path that stays inside sub-documents: `get_value_by_dot` is the rule's path lookup -/
-theorem getDotGen_eq_path (ps : List String) (v : Val) (h : pathThroughArray ps v = false) :
-    getDotGen ps v = Spec.path ps v := by
-  induction ps generalizing v with
-  | nil => cases v <;> simp [getDotGen, Spec.path]
+theorem okReasons_nil {α} (r : R α) (h : okReasons r = []) : ∃ v, r = .ok v := by
+  cases r with
+  | ok v => exact ⟨v, rfl⟩
+  | error e => cases e <;> simp [okReasons] at h
+
+/-- two comprehensions over one list agree when they agree item by item -/
+theorem mapM_ok_congr {α β} (F G : α → R β) (xs : List α) (rs : List β)
+    (h : ∀ x ∈ xs, ∀ r, F x = .ok r → G x = .ok r) (hs : xs.mapM F = .ok rs) :
+    xs.mapM G = .ok rs := by
+  induction xs generalizing rs with
+  | nil => simpa using hs
+  | cons x xs ih =>
+    simp only [List.mapM_cons, bind, Except.bind] at hs ⊢
+    cases hx : F x with
+    | error e => simp [hx] at hs
+    | ok r =>
+      simp only [hx] at hs
+      cases hr : xs.mapM F with
+      | error e => simp [hr] at hs
+      | ok rs' =>
+        simp only [hr, pure, Except.pure] at hs
+        rw [h x (by simp) r hx, ih rs' (fun y hy => h y (by simp [hy])) hr]
+        exact hs
+
+/-- wherever the rule's path lookup has an answer and no numeric component meets an array,
+    `get_value_by_dot` computes it: sub-documents are descended, an array gives the values that
+    its documents have at the rest of the path -/
+theorem getDotGen_of_path (ps : List String) (v : Val) (h : pathIndexesArray ps v = false)
+    (r : Option Val) (hs : Spec.path ps v = .ok r) : getDotGen ps v = .ok r := by
+  induction ps generalizing v r with
+  | nil => cases v <;> simpa [getDotGen, Spec.path] using hs
   | cons p ps ih =>
     cases v with
     | doc fs =>
-      simp only [getDotGen, Spec.path]
+      simp only [getDotGen, Spec.path] at hs ⊢
       cases hd : dget p fs with
-      | none => rfl
+      | none => simpa [hd] using hs
       | some w =>
-        simp only [pathThroughArray, hd] at h
-        exact ih w h
-    | arr xs => simp [pathThroughArray] at h
-    | _ => simp [getDotGen, Spec.path]
+        simp only [pathIndexesArray, hd] at h
+        simp only [hd] at hs ⊢
+        exact ih w h r hs
+    | arr xs =>
+      simp only [pathIndexesArray, Bool.or_eq_false_iff] at h
+      obtain ⟨hk, hall⟩ := h
+      have hk' : keyInt p = .ok none := by
+        cases hki : keyInt p with
+        | error e => simp [hki] at hk
+        | ok o => cases o with
+          | none => rfl
+          | some i => simp [hki] at hk
+      simp only [getDotGen, Spec.path, hk', bind, Except.bind] at hs ⊢
+      split at hs
+      · cases hs
+      · rename_i rs heq
+        rw [mapM_ok_congr _ _ xs rs ?_ heq]
+        · exact hs
+        · intro x hx r' hr'
+          cases x with
+          | doc gs =>
+            dsimp only at hr' ⊢
+            cases hd : dget p gs with
+            | none => simpa [hd] using hr'
+            | some w =>
+              simp only [hd] at hr' ⊢
+              have hx' := List.any_eq_false.mp hall _ hx
+              simp only [hd] at hx'
+              exact ih w (by simpa using hx') r' hr'
+          | arr ys => simp [unmodelled] at hr'
+          | _ => all_goals simpa using hr'
+    | _ => all_goals simpa [getDotGen, Spec.path] using hs
 
 theorem splitDotsChars_ne_nil (cs acc : List Char) : splitDotsChars cs acc ≠ [] := by
   induction cs generalizing acc with
@@ -38,57 +92,60 @@ theorem splitDotsChars_ne_nil (cs acc : List Char) : splitDotsChars cs acc ≠ [
 theorem str_case (c : Ctx) (root : Val) (env : Env) (hr : EnvRel c root env) (s : String)
     (h : strReasons root env s = []) (hok : okReasons (sEval root env (.str s)) = []) :
     eval c (.str s) = sEval root env (.str s) := by
-  simp only [sEval] at hok
-  simp only [eval, evalBasic, sEval]
+  obtain ⟨res, hres⟩ := okReasons_nil _ hok
+  rw [hres]
+  simp only [sEval] at hres
+  simp only [eval, evalBasic]
   unfold strReasons at h
   cases hk : strKind s with
-  | lit => rfl
+  | lit => simp only [hk] at hres ⊢; exact hres
   | field r =>
-    simp only [hk] at h ⊢
+    simp only [hk] at h hres ⊢
     rw [hr.hroot]
-    apply getDotGen_eq_path
-    by_contra hc
-    simp [hc] at h
+    exact getDotGen_of_path _ _ (by by_contra hc; simp [hc] at h) res hres
   | var r =>
-    simp only [hk] at h hok ⊢
+    simp only [hk] at h hres ⊢
     cases hsp : splitDotsChars r [] with
     | nil => exact absurd hsp (splitDotsChars_ne_nil r [])
     | cons name rest =>
-      simp only [hsp] at h hok
-      simp only [evalVar, List.headD_cons, dhas, getDotGen, varLookup, hr.hget name]
-      simp only [varLookup] at hok
+      simp only [hsp] at h hres
+      have hv := hr.hvar name
+      simp only [varLookup] at hres
+      simp only [evalVar, List.headD_cons]
       cases hl : env.lookup name with
       | some ov =>
         cases ov with
         | some v =>
-          simp only [hl] at h ⊢
-          simp only [Option.isSome_some, Bool.not_true, Bool.false_and, Bool.false_eq_true, if_false]
-          apply getDotGen_eq_path
-          by_contra hc
-          simp [hc] at h
-        | none => exact absurd hl (hr.hsome name)
+          simp only [hl] at h hres hv
+          simp only [hv.1, Bool.false_eq_true, if_false, dhas, hv.2, Option.isSome_some,
+            Bool.not_true, Bool.false_and, getDotGen]
+          exact getDotGen_of_path rest v (by by_contra hc; simp [hc] at h) res hres
+        | none =>
+          simp only [hl] at hres hv
+          simp only [hv, if_true]
+          exact hres
       | none =>
-        simp only [hl] at h hok ⊢
+        simp only [hl] at h hres hv
         by_cases hn : name = "ROOT" ∨ name = "CURRENT"
         · have hb : (decide (name = "ROOT") || decide (name = "CURRENT")) = true := by
             rcases hn with e | e <;> simp [e]
-          rw [if_pos hb] at h
-          have hp : pathThroughArray rest root = false := by
-            by_contra hc; simp [hc] at h
-          rw [if_pos hn, if_pos hb]
-          simp only [Option.isSome_some, Bool.not_true, Bool.false_and, Bool.false_eq_true, if_false]
-          exact getDotGen_eq_path rest root hp
+          rw [if_pos hb] at h hres
+          rw [if_pos hn] at hv
+          simp only [hv.1, Bool.false_eq_true, if_false, dhas, hv.2, Option.isSome_some,
+            Bool.not_true, Bool.false_and, getDotGen]
+          exact getDotGen_of_path rest root (by by_contra hc; simp [hc] at h) res hres
         · have h1 : ¬ name = "ROOT" := fun e => hn (Or.inl e)
           have h2 : ¬ name = "CURRENT" := fun e => hn (Or.inr e)
           have hb : ¬ (decide (name = "ROOT") || decide (name = "CURRENT")) = true := by
             simp [h1, h2]
-          rw [if_neg hb] at hok
-          rw [if_neg hn, if_neg hb]
+          rw [if_neg hb] at hres
+          rw [if_neg hn] at hv
           by_cases hrm : name = "REMOVE"
           · subst hrm
-            simp [systemVars]
-          · rw [if_neg hrm] at hok
-            split at hok <;> simp [okReasons, unmodelled] at hok
+            rw [if_pos rfl] at hres
+            simp [hv.1, dhas, hv.2, systemVars, getDotGen, dget, ← hres]
+          · rw [if_neg hrm] at hres
+            split at hres <;> simp [unmodelled] at hres
 
 /-! ### constants -/
 
